@@ -62,6 +62,7 @@ def setup(rep, tier):
     rep.minimum('R01.7', 12)
     rep.minimum('R01.8', 2)
     rep.minimum('R01.9', 1)
+    rep.minimum('R01.10', 20)
 
 
 class Px:
@@ -642,7 +643,64 @@ def r01_789(rep, prog):
             rep.holds('R01.9', '%s:fixed-point denormalisation shifts and saturates (no exponentiation of an unbounded float)' % prog.config, f.where(), None)
 
 
+# ------------------------------------------------------------------ R01.10
+def r01_10(rep, prog):
+    """the caller's interleaved PCM buffer has the layout of the OBJECT (st->channels), whatever the number
+    of channels the current packet codes (st->stream_channels).  Every call in src/ that passes a pointer rooted at
+    the `pcm` parameter together with a channel count, and every loop over such a pointer, uses st->channels.
+    With stream_channels instead, a stereo object handling mono packets touches half the samples and a mono object
+    handling stereo packets runs past the buffer."""
+    n = 0
+    for f in prog.functions_all:
+        if not f.file.startswith('src/') or not any(q['name'] == 'pcm' for q in f.params):
+            continue
+        cg = None
+
+        def rooted(a):
+            b = sx.strip(a)
+            while sx.kind(b) == 'bin' and b[1] in ('+', '-'):
+                b = sx.strip(b[2])
+            if sx.kind(b) == 'idx' or sx.kind(b) == 'addr':
+                r, path = sx.lvalue_root(b if sx.kind(b) == 'idx' else sx.strip(b[1]))
+                b = r if r is not None else b
+            return sx.kind(b) == 'param' and b[2] == 'pcm'
+        for c in f.calls():
+            if not any(rooted(a) for a in c[2]):
+                continue
+            fl = [y[3] for a in c[2] for y in sx.walk(a) if sx.kind(y) == 'field' and y[3] in ('channels', 'stream_channels')]
+            if not fl:
+                continue
+            n += 1
+            rep.functions.add(f.name)
+            inst = '%s:%s passes the caller\'s PCM to %s with the object\'s channel count' % (prog.config, f.name, sx.callee_name(c) or 'a function pointer')
+            where = '%s:%s' % (f.file, sx.line(c))
+            if 'stream_channels' in fl:
+                rep.violated('R01.10', inst, where, '`%s` addresses the caller\'s interleaved buffer with st->stream_channels' % sx.show(c)[:100], key='%s:%s:%s' % (f.name, sx.callee_name(c), sx.line(c)))
+            else:
+                rep.holds('R01.10', inst, where, None)
+        # loops over the buffer
+        cg = cfgm.CFG(f)
+        for h, latch, body in cg.natural_loops():
+            conds = [cg.cond(b) for b in body if cg.cond(b) is not None and any(s2 not in body for s2 in cg.succ[b])]
+            touches = any(sx.kind(x) == 'idx' and rooted(x[1]) for b in body for s_ in cg.blocks[b]['stmts'] for x in sx.walk(s_))
+            if not touches:
+                continue
+            fl = [y[3] for c_ in conds for y in sx.walk(c_) if sx.kind(y) == 'field' and y[3] in ('channels', 'stream_channels')]
+            if not fl:
+                continue
+            n += 1
+            rep.functions.add(f.name)
+            inst = '%s:%s walks the caller\'s PCM over the object\'s channel count (loop at line %s)' % (prog.config, f.name, cg.blocks[h].get('term', {}).get('l'))
+            where = '%s:%s' % (f.file, cg.blocks[h].get('term', {}).get('l'))
+            if 'stream_channels' in fl:
+                rep.violated('R01.10', inst, where, 'loop bound `%s` uses st->stream_channels' % ' ; '.join(sx.show(c_) for c_ in conds)[:100], key='%s:loop:%s' % (f.name, cg.blocks[h].get('term', {}).get('l')))
+            else:
+                rep.holds('R01.10', inst, where, None)
+    return n
+
+
 def check(rep, prog, tier):
+    r01_10(rep, prog)
     pt = PointsTo(prog)
     r01_1(rep, prog)
     # the concealment / FEC capacity skeleton (cursor and remaining-capacity rules shared with C09)
